@@ -257,7 +257,7 @@ open RF in
 theorem damage_noticed (H1 H : Bytes → Bytes) (B hs : Nat) (hhs : 0 < hs) (mf : BVal)
     (disk : Disk) (p : Spec.Plan) (argName : Bytes) (here : Option Node)
     (hplan : Spec.plan B mf disk = some p) (hscope : p.InScope B hs)
-    (hroot : Impl.findRoot (Impl.nameOf mf) argName here = .ok disk)
+    (hroot : Impl.findRoot (Impl.infoOf mf) (Impl.nameOf mf) argName here = .ok disk)
     (hnodir : Spec.NoDirAtFile mf disk) (hne : ¬ Spec.EmptySingleV2 mf (isFile disk))
     (v : Bool × Nat) (hv : v ∈ p.verdicts H1 H B hs) (hneg : v.1 = false) :
     ∃ vs matched consumed,
